@@ -242,6 +242,21 @@ func checkC17(c c17Case) string {
 		if m := wantStr(arr, 0, naiveReplaceAll(s, t, c.R), "replace(s,t,r)"); m != "" {
 			return m
 		}
+	} else if utf8.ValidString(s) && utf8.ValidString(c.R) {
+		// the empty string occurs between characters (and at both ends), never
+		// inside one: the result is s with r at every one of those places - or
+		// s itself, if an implementation counts no occurrences at all
+		arr, msg = c17Eval(c, `[replace(s,t,r)]`)
+		if msg != "" {
+			return msg
+		}
+		all := c.R
+		for _, ch := range s {
+			all += string(ch) + c.R
+		}
+		if got, ok := arr[0].(string); !ok || (got != all && got != s) {
+			return fmt.Sprintf("replace(s,'',r) = %s, want r between the characters of s (%q) or s unchanged", obs.Show(arr[0]), all)
+		}
 	}
 	// regexp: quoted needle behaves like contains / startWith / endWith, alternation like either
 	if utf8.ValidString(t) && utf8.ValidString(s) {
